@@ -130,8 +130,9 @@ impl T {
                 }
             }
             T::Fill(f) => {
-                if f.has_rotate() {
-                    // a filled rotation is not a bijection (the engine refuses or loses rows)
+                if f.has_rotate() || f.has_block(&["utf8", "bits"]) {
+                    // a filled rotation is not a bijection (the engine refuses or loses rows); under a fill the rows of a
+                    // block whose result length depends on the values (utf8, bits) are padded to a common length: no bijection either
                     return None;
                 }
                 if mode == 2 {
@@ -161,6 +162,15 @@ impl T {
             T::Seq(v) => v.iter().any(|t| t.has_box()),
             T::Dip(f) | T::Both(f) | T::Rows(f) | T::Fill(f) => f.has_box(),
             T::Bracket(f, g) => f.has_box() || g.has_box(),
+        }
+    }
+    pub fn has_block(&self, names: &[&str]) -> bool {
+        match self {
+            T::B(i) => names.contains(&BLOCKS[*i].name),
+            T::On(_) | T::By(_) => false,
+            T::Seq(v) => v.iter().any(|t| t.has_block(names)),
+            T::Dip(f) | T::Both(f) | T::Rows(f) | T::Fill(f) => f.has_block(names),
+            T::Bracket(f, g) => f.has_block(names) || g.has_block(names),
         }
     }
     pub fn has_rotate(&self) -> bool {
